@@ -33,7 +33,6 @@ from torchphysics.utils.data import deeponet_dataloader as DM
 
 from symtorch.harness import Case
 from symtorch import symint as SI
-from symtorch import term as T
 
 BOUND = {"quick": 6, "thorough": 10}
 
@@ -61,11 +60,6 @@ SX, SY = tp.spaces.R1("x"), tp.spaces.R2("y")
 
 def _flag(b):
     return "T" if b else "F"
-
-
-def _fz(x):
-    """python bool / z3 Bool -> goal"""
-    return x
 
 
 def _all(fs):
@@ -304,7 +298,8 @@ def deeponet_coverage_case(B, layout, regime, shb=False, sht=False):
             yield g, o[g]
 
     return Case(name, body, goals, family="A/deeponet/coverage/%s/%s" % (layout, regime),
-                params=dict(B=B, layout=layout, regime=regime, shuffle_branch=shb, shuffle_trunk=sht), max_paths=8)
+                params=dict(B=B, layout=layout, regime=regime, shuffle_branch=shb, shuffle_trunk=sht), max_paths=8,
+                timeout_ms=60000 if B <= 6 else 400000)  # one expanded-forall query takes ~2 s (B=6) / ~30 s (B=10) on an idle machine
 
 
 POINT_ITEM_GOALS = ["tuple_members_hold_same_rows", "batch_not_larger_than_requested", "indices_in_range", "standin_side_conditions", EXACT]
@@ -680,7 +675,7 @@ def cases(tier):
              (3, 2, "inf", False, True, 1.0)]
     if th:
         conds += [(5, 2, 2, True, False, 1.0), (4, 2, 2, False, True, 1.0), (3, 3, 2, False, True, 1.0), (3, 2, 1, False, False, 2.0),
-                  (4, 3, "inf", True, True, 1.0)]
+                  (4, 2, "inf", True, True, 1.0)]
     for N, bs, norm, dl, sh, root in conds:
         cs.append(condition_case(N, bs, norm, dl, sh, root))
     cs.append(condition_iter_case(3, 2, 3))
